@@ -504,6 +504,14 @@ def c01_5b(ck, prog):
                 if is_ref(lhs, cursor) and how == '=' and rhs is not None and \
                         any(is_ref(x, 'alignment') for x in walk(rhs)):
                     return 'ok'
+                if isinstance(user, tuple) and is_ref(lhs) and not is_ref(lhs, cursor) and how in ('=', 'decl') \
+                        and rhs is not None and rhs.get('k') == 'bin' and rhs['op'] == '+' \
+                        and any(is_ref(x, cursor) for x in (rhs['l'], rhs['r'])) \
+                        and not any(is_int(x) for x in (rhs['l'], rhs['r'])):
+                    ctx.report('%s (the end of the array contents) is computed from the cursor before it was '
+                               'aligned to the element alignment (obtained at line %d): with padding after the '
+                               'length word the end falls short of the last element' % (lhs['name'], user[1]),
+                               ev['line'], key='array-end-unaligned')
             if isinstance(user, tuple):
                 leave = False
                 if ev['ev'] == 'call' and ev['e'].get('callee') == '_dbus_type_reader_next':
